@@ -525,7 +525,7 @@ func (h *vC34Harness) mutants(b *vC34Base) []vC34Cand {
 	)
 
 	// duplicate keys
-	group(3,
+	group(4,
 		func() *vC34Cand {
 			r := vC34Clone(base)
 			i := rng.Intn(n - 1)
@@ -576,6 +576,15 @@ func (h *vC34Harness) mutants(b *vC34Base) []vC34Cand {
 			r := vC34Clone(base)
 			r[j] = entry(b.nodes[j].Custodian, b.nodes[j].Custodian, b.nodes[j].Signer)
 			return &vC34Cand{label: "dup-payee-is-own-custodian", extra: asm(r)}
+		},
+		func() *vC34Cand { // the payee's spend key is the entry's own custodian key, under another view key
+			j := rng.Intn(n)
+			p := *b.nodes[j].Custodian
+			v := h.fresh("view")
+			p.PrivateViewKey, p.PublicViewKey = v.PrivateViewKey, v.PublicViewKey
+			r := vC34Clone(base)
+			r[j] = entry(b.nodes[j].Custodian, &p, b.nodes[j].Signer)
+			return &vC34Cand{label: "dup-payee-spend-key-is-own-custodian-key-other-view-key", extra: asm(r)}
 		},
 	)
 
